@@ -280,3 +280,78 @@ def run(ctx):  # noqa: F811
                       "(L+P)^-1 (exact linear normal form over L, P and the draws)", floor=5)
     sampling_enabler_assembly(ctx, ctx.model, "R13.4")
     r11_5(ctx, ctx.model, rid="R13.5")
+
+
+def r13_6(ctx, m):
+    SU = m.cls(OPS + "sum_operator", "SumOperator")
+    ds = SU.methods["draw_sample"]
+    ctx.saw_func(ds)
+    ctx.rule("R13.6", "SumOperator.draw_sample refuses sums with subtracted summands: a raise under a test of self._neg precedes the "
+                      "accumulation of the draws (independent draws add their covariances whatever the sign, so A - B would be "
+                      "sampled as A + B)", floor=1)
+    cfg = cfg_of(ds)
+    raises = [n for n in cfg.nodes if n.kind == "stmt" and isinstance(n.ast, ast.Raise)
+              and any(pol and "_neg" in src(t) for t, pol in known_atoms(cfg, n.id))]
+    draws = [n for n in cfg.nodes if n.kind == "stmt" and n.ast is not None and any(isinstance(c, ast.Call) and call_name(c) == "draw_sample" for c in ast.walk(n.ast))]
+    key = f"{ds.key}::subtracted summands are refused before anything is drawn"
+    if not draws:
+        ctx.und("R13.6", key, "no draw found", ds)
+    elif not raises:
+        ctx.bad("R13.6", key, "no refusal depending on self._neg: the draws of all summands are united regardless of their signs", ds, draws[0].ast)
+    else:
+        ctx.check("R13.6", key, all(raises[0].ast.lineno < d.ast.lineno for d in draws), src(raises[0].ast)[:80], ds, raises[0].ast)
+
+
+_run_c13d = run
+
+
+def run(ctx):  # noqa: F811
+    _run_c13d(ctx)
+    r13_6(ctx, ctx.model)
+
+
+def r13_7(ctx, m):
+    MF = m.cls("nifty.cl.multi_field", "MultiField")
+    fr = MF.methods.get("from_random")
+    ctx.rule("R13.7", "white noise on a multi-domain (what ScalingOperator.draw_sample draws): MultiField.from_random looks the sampling "
+                      "dtype of key k up BY THAT KEY (dtype[k] next to domain[k]); pairing the sorted domain keys with the values of "
+                      "the caller's dict by position gives real noise to complex keys and vice versa", floor=1)
+    if fr is None:
+        ctx.und("R13.7", f"{MF.key}::from_random", "missing", MF)
+    else:
+        ctx.saw_func(fr)
+        calls = [c for c in ast.walk(fr.node) if isinstance(c, ast.Call) and src(c.func) == "Field.from_random"]
+        key = f"{fr.key}::dtype of key k is dtype[k]"
+        if len(calls) != 1 or len(calls[0].args) < 3:
+            ctx.und("R13.7", key, f"{len(calls)} per-key draws", fr)
+        else:
+            c = calls[0]
+            d0, dt = c.args[0], c.args[2]
+            if isinstance(d0, ast.Subscript) and isinstance(dt, ast.Subscript):
+                ctx.check("R13.7", key, src(d0.slice) == src(dt.slice), f"{src(d0)} drawn with {src(dt)}", fr, c)
+            elif isinstance(dt, ast.Name) and any(isinstance(z, ast.Call) and src(z.func) == "zip" and any("values()" in src(a) or isinstance(a, ast.Name) for a in z.args)
+                                                   for z in ast.walk(fr.node)):
+                ctx.bad("R13.7", key, f"`{src(c)[:80]}`: the dtype is paired with the key by position (zip), not looked up by key", fr, c)
+            else:
+                ctx.und("R13.7", key, f"dtype argument `{src(dt)}` not recognised", fr, c)
+    IE = m.cls(OPS + "inversion_enabler", "InversionEnabler")
+    ds = IE.methods.get("draw_sample")
+    ctx.rule("R13.8", "InversionEnabler.draw_sample hands the request to the wrapped operator on every path: the approximation is a "
+                      "preconditioner for the numerical inverse, never a source of samples (its covariance is not the operator's)", floor=1)
+    if ds is None:
+        ctx.und("R13.8", f"{IE.key}::draw_sample", "missing", IE)
+    else:
+        ctx.saw_func(ds)
+        others = [c for c in ast.walk(ds.node) if isinstance(c, ast.Call) and call_name(c) in ("draw_sample", "special_draw_sample") and src(c.func.value) != "self._op"]
+        rets = [r for r in ast.walk(ds.node) if isinstance(r, ast.Return) and r.value is not None]
+        okr = bool(rets) and all(isinstance(r.value, ast.Call) and src(r.value.func) == "self._op.draw_sample" and [src(a) for a in r.value.args] == ds.params()[1:3] for r in rets)
+        ctx.check("R13.8", f"{ds.key}::samples come from the wrapped operator only", (not others) and okr,
+                  f"`{short(others[0], 60)}` draws from another operator" if others else str([src(r.value) for r in rets]), ds, others[0] if others else None)
+
+
+_run_c13e = run
+
+
+def run(ctx):  # noqa: F811
+    _run_c13e(ctx)
+    r13_7(ctx, ctx.model)
